@@ -144,11 +144,21 @@ func (m *M) Start() Obs {
 
 func (m *M) startScope(s *Scope) {
 	s.started = true
+	// all start events fire together: create every token before one of them
+	// can be consumed (a start event whose outgoing flows are all false ends
+	// its token at once, which must not make the scope look finished)
+	type st struct {
+		t *Token
+		n *gen.Node
+	}
+	var starts []st
 	for _, n := range s.G.Nodes {
 		if n.Kind == gen.KStart {
-			t := m.newToken(s, "", n.ID)
-			m.leave(t, n)
+			starts = append(starts, st{m.newToken(s, "", n.ID), n})
 		}
+	}
+	for _, x := range starts {
+		m.leave(x.t, x.n)
 	}
 }
 
